@@ -14,11 +14,12 @@ type Event struct {
 	ch   *ChanObj
 	cell *Value
 	seq  int
+	po   *Event // program-order predecessor (same goroutine)
 }
 
 
 func (ex *Exec) newEvent(g *G, kind string, ch *ChanObj, cell *Value) *Event {
-	e := &Event{id: len(ex.events), g: g.id, kind: kind, ch: ch, cell: cell}
+	e := &Event{id: len(ex.events), g: g.id, kind: kind, ch: ch, cell: cell, po: g.lastEv}
 	ex.events = append(ex.events, e)
 	if g.lastEv != nil {
 		ex.edges = append(ex.edges, [2]int{g.lastEv.id, e.id})
